@@ -18,6 +18,18 @@ RT = 1e-9          # implementation vs exact arithmetic on the same stored numbe
 RT2 = 1e-6         # two separate fits (shifted / permuted data): iterative algorithm stopped at tol 1e-9
 
 
+# ----------------------------------------------------------------------------- implementation calls
+class Skip(Exception):
+    """a per-call timeout on a loaded machine: the case is skipped and counted, never a verdict"""
+
+
+def call(fn, *args, **kw):
+    out = C.call_impl(fn, *args, timeout=240, **kw)
+    if out[0] == "crash" and out[1] == "timeout":
+        raise Skip()
+    return out
+
+
 # ----------------------------------------------------------------------------- literals
 def zt(a):
     a = np.asarray(a)
@@ -200,7 +212,7 @@ def reg_predicates(p, r):
     if v.shape != (W.size,) or not close(v, W.reshape(-1), 1e-12):
         bad.append(("C19_vec_is_vectorisation", f"vec_W_ != tensor_to_vec(weight_tensor_) (shape {v.shape})"))
     for nm, Xq in (("train", p["X"]), ("new", p["Xn"])):
-        st, pr = C.call_impl(r.predict, Xq.copy())
+        st, pr = call(r.predict, Xq.copy())
         if st != "ok":
             bad.append(("C19_predict_is_contraction", f"predict({nm} X) raised after a successful fit: {pr}"))
             continue
@@ -219,7 +231,7 @@ def reg_cases(p, r, cid):
     W = np.asarray(r.weight_tensor_, dtype=np.float64)
     v = np.asarray(r.vec_W_, dtype=np.float64)
     Xn = p["Xn"]
-    pr = C.call_impl(r.predict, Xn.copy())
+    pr = call(r.predict, Xn.copy())
     if p["kind"] == "cp":
         weights, factors = r.cp_weight_
         fl = lst(qt(f) for f in factors)
@@ -278,20 +290,20 @@ def plsr_predicates(p, r):
     bad = []
     X, Y, Xn, c, d, perm = p["X"], p["y"], p["Xn"], p["c"], p["d"], p["perm"]
     T = np.asarray(r.X_factors[0])
-    st, tr = C.call_impl(r.transform, X.copy())
+    st, tr = call(r.transform, X.copy())
     if st != "ok" or not close(tr, T, 1e-8):
         bad.append(("C19_plsr_transform_train", f"transform(X_train) != fitted X scores ({st})"))
     for k, f in enumerate(list(r.X_factors[1:]) + [r.Y_factors[1]]):
         nr = np.linalg.norm(np.asarray(f), axis=0)
         if not np.all(np.abs(nr - 1) <= 1e-9):
             bad.append(("C19_plsr_unit_norm", f"loading matrix {k} has column norms {nr.tolist()}"))
-    st, base = C.call_impl(r.predict, Xn.copy())
+    st, base = call(r.predict, Xn.copy())
     if st != "ok":
         bad.append(("C19_plsr_predict", f"predict raised after a successful fit: {base}"))
         return bad, False
     # shift invariance
     dd = d if np.ndim(Y) == 2 else d[0]
-    st2, r2 = C.call_impl(fit_plsr, X + c, Y + dd, p["ncomp"])
+    st2, r2 = call(fit_plsr, X + c, Y + dd, p["ncomp"])
     comparable = True
     if st2 != "ok":
         bad.append(("C19_plsr_shift", f"fit on shifted data raised: {r2}"))
@@ -302,11 +314,11 @@ def plsr_predicates(p, r):
                         [(f"Y_factors[{k}]", r.Y_factors[k], r2.Y_factors[k]) for k in range(2)] + [("coef_", r.coef_, r2.coef_)]:
             if not close(a, b, RT2):
                 bad.append(("C19_plsr_shift", f"{nm} changed when a constant tensor was added to every sample of X and a constant to Y"))
-        st3, p2 = C.call_impl(r2.predict, Xn + c)
+        st3, p2 = call(r2.predict, Xn + c)
         if st3 != "ok" or not close(np.asarray(p2) - d, base, RT2):
             bad.append(("C19_plsr_shift", "predict(X + c) - d differs from predict(X) of the unshifted fit"))
     # sample permutation
-    st4, r4 = C.call_impl(fit_plsr, X[perm], Y[perm], p["ncomp"])
+    st4, r4 = call(fit_plsr, X[perm], Y[perm], p["ncomp"])
     if st4 != "ok":
         bad.append(("C19_plsr_perm", f"fit on permuted samples raised: {r4}"))
     elif not plsr_wellposed(r4):
@@ -319,7 +331,7 @@ def plsr_predicates(p, r):
                 bad.append(("C19_plsr_perm", f"X_factors[{k}] changed under a permutation of the samples"))
         if not close(r.Y_factors[1], r4.Y_factors[1], RT2) or not close(r.coef_, r4.coef_, RT2):
             bad.append(("C19_plsr_perm", "Y loadings / coef_ changed under a permutation of the samples"))
-        st5, p4 = C.call_impl(r4.predict, Xn.copy())
+        st5, p4 = call(r4.predict, Xn.copy())
         if st5 != "ok" or not close(p4, base, RT2):
             bad.append(("C19_plsr_perm", "predictions changed under a permutation of the training samples"))
     return bad, comparable
@@ -332,10 +344,10 @@ def plsr_cases(p, r):
     loads = lst(lst(qt(np.asarray(f)[:, c]) for f in r.X_factors[1:]) for c in range(ncomp))
     xm, ym = np.asarray(r.X_mean_), np.asarray(r.Y_mean_)
     for Xq in (X, Xn):
-        st, tr = C.call_impl(r.transform, Xq.copy())
+        st, tr = call(r.transform, Xq.copy())
         if st == "ok":
             cs.append(f"KPlsrTransform {qt(xm)} {loads} {qt(Xq)} {qt(tr)}")
-    st, pr = C.call_impl(r.predict, Xn.copy())
+    st, pr = call(r.predict, Xn.copy())
     if st == "ok":
         cs.append(f"KPlsrPredict {qt(xm)} {qt(ym)} {loads} {qt(r.coef_)} {qt(r.Y_factors[1])} {qt(Xn)} {qt(pr)}")
     cs.append(f"KMean {qt(X)} {qt(xm)}")
@@ -355,7 +367,7 @@ def describe(p):
 def eval_problem(p):
     """-> (status, predicate failures, coq cases, comparable)"""
     if p["kind"] in ("cp", "tucker"):
-        st, r = C.call_impl(fit_reg, p)
+        st, r = call(fit_reg, p)
         if st != "ok":
             return "fit-raised", [], [], True
         arrs = [r.weight_tensor_, r.vec_W_] + list((r.cp_weight_ if p["kind"] == "cp" else r.tucker_weight_)[1])
@@ -363,7 +375,7 @@ def eval_problem(p):
         if not finite_ok(*arrs):
             return "non-finite", [], [], True
         return "ok", reg_predicates(p, r), reg_cases(p, r, 0), True
-    st, r = C.call_impl(fit_plsr, p["X"], p["y"], p["ncomp"])
+    st, r = call(fit_plsr, p["X"], p["y"], p["ncomp"])
     if st != "ok":
         return "fit-raised", [], [], True
     if not plsr_wellposed(r):
@@ -405,7 +417,11 @@ def run(chk):
     # 1. exact predict cases
     for kind, W, X in z_predict_cases(chk.tier, rng):
         fn = impl_predict_cp if kind == "cp" else impl_predict_tucker
-        out = C.call_impl(fn, W, X)
+        try:
+            out = call(fn, W, X)
+        except Skip:
+            chk.hist("outcome", "timeout-skipped")
+            continue
         if out[0] == "crash":
             # the implementation raised something other than a shape error: report through the predicate channel
             chk.finding(ENTRY[kind] + ".predict", {"kind": "predict_z", "which": kind, "W": W, "X": X}, f"predict crashed: {out[1]}", "C19_predict_is_contraction")
@@ -424,7 +440,10 @@ def run(chk):
     problems = load_corpus() + reg_problems(chk.tier, rng) + plsr_problems(chk.tier, rng)
     skipped = 0
     for p in problems:
-        status, bad, cs, comparable = eval_problem(p)
+        try:
+            status, bad, cs, comparable = eval_problem(p)
+        except Skip:
+            status, bad, cs, comparable = "timeout-skipped", [], [], True
         chk.hist("fit_status_" + p["kind"], status)
         if status != "ok":
             skipped += 1
@@ -474,7 +493,7 @@ def replay(payload):
     p = problem_from_json(payload["inputs"])
     if p.get("kind") == "predict_z":
         fn = impl_predict_cp if p["which"] == "cp" else impl_predict_tucker
-        out = C.call_impl(fn, p["W"], p["X"])
+        out = C.call_impl(fn, p["W"], p["X"], timeout=240)
         okk = out[0] == "ok" and np.shape(out[1]) == contract(p["X"], p["W"]).shape and np.array_equal(out[1], contract(p["X"], p["W"]))
         print("replay: predict_z ->", "holds" if okk else "fails")
         return 0 if okk else 1
@@ -483,6 +502,10 @@ def replay(payload):
             p[k] = [int(x) for x in p[k]]
     if "perm" in p:
         p["perm"] = [int(x) for x in p["perm"]]
-    status, bad, _, _ = eval_problem(p)
+    try:
+        status, bad, _, _ = eval_problem(p)
+    except Skip:
+        print("replay: timed out (machine loaded); not a verdict")
+        return 1
     print("replay:", p["kind"], status, "->", [b[0] for b in bad] or "holds")
     return 1 if bad else 0
